@@ -1572,3 +1572,47 @@ impl DynGen for RealClockProbe {
         self
     }
 }
+
+
+/// Seeding sweep for the Debug texts: `n` generators of one type from unrelated seeds, never used; the
+/// `{:?}` text of every one must equal the text of the first (a text that reflects something the key setup
+/// found in the secret tables - two equal neighbouring words: 2^-22 per seed - differs for a few seeds in
+/// millions). kind: 0 = Hc128Rng, 1 = Hc128Core, 2 = IsaacRng, 3 = Isaac64Rng, 4 = XorShiftRng.
+/// Returns (index, text of seed 0, text of that seed).
+pub fn debug_seed_sweep(kind: u64, key: u64, n: usize) -> Result<Option<(usize, String, String)>, SutFail> {
+    guard(|| {
+        use std::fmt::Write;
+        let seed32 = |i: usize| -> [u8; 32] {
+            let mut s = [0u8; 32];
+            for (k, ch) in s.chunks_mut(8).enumerate() {
+                ch.copy_from_slice(&crate::prng::h2(key ^ ((k as u64) << 56), i as u64).to_le_bytes());
+            }
+            s
+        };
+        let text = |i: usize, out: &mut String| {
+            out.clear();
+            let s = seed32(i);
+            let _ = match kind {
+                0 => write!(out, "{:?}", rand_hc::Hc128Rng::from_seed(s)),
+                1 => write!(out, "{:?}", rand_hc::Hc128Core::from_seed(s)),
+                2 => write!(out, "{:?}", rand_isaac::IsaacRng::from_seed(s)),
+                3 => write!(out, "{:?}", rand_isaac::Isaac64Rng::from_seed(s)),
+                _ => {
+                    let mut k = [0u8; 16];
+                    k.copy_from_slice(&s[..16]);
+                    write!(out, "{:?}", rand_xorshift::XorShiftRng::from_seed(k))
+                }
+            };
+        };
+        let mut first = String::new();
+        text(0, &mut first);
+        let mut t = String::with_capacity(first.len() + 16);
+        for i in 1..n {
+            text(i, &mut t);
+            if t != first {
+                return Some((i, first, t));
+            }
+        }
+        None
+    })
+}
